@@ -84,6 +84,11 @@ def specP : P String := do
   | "cutoff" => do
       let w ← nat; let tail ← bool; let sv ← listOf nat; let out ← listOf nat
       pure (okB (cutoffSpecB sv w tail out))
+  | "sorteddues" => do
+      -- `sorted(jobs)` of the implementation (due instants in that order) is the model's stable ascending sort of the
+      -- registry given in iteration order
+      let it ← listOf int; let sorted ← listOf int
+      pure (okB ((sortByDue (it.map (fun d => ({ due := d, cells := [] } : JobRow)))).map (·.due) == sorted))
   | "rowlen" => do
       let len ← nat; let widths ← listOf nat
       pure (okB (len == widths.sum + (widths.length - 1) + 1))
